@@ -1,7 +1,557 @@
-//! In-process half of C18 (same process, same argv, twice): placeholder until envsim lands.
-use crate::Args;
+//! C18: determinism of every output under a seeded process environment (E2), plus the same-process
+//! repetition (E1) and, as a side-invariant on the workload only, termination/idempotence of fixpoint runs.
+use crate::e2::{self, Binaries, Env, ProcOut};
+use crate::exec::Scratch;
+use crate::workload::{self, Cmd};
+use crate::{Args, harness_error, seed_from, verif_home};
+use anthem_simrt::plan::{Plan, Rng, mix3};
+use anthem_simrt::sched::{ExecStatus, SchedSpec, run_execution};
+use anthem_simrt::state::Scenario;
+use serde::{Deserialize, Serialize};
+use std::collections::{BTreeMap, BTreeSet};
+use std::fs;
+use std::path::{Path, PathBuf};
+use std::sync::atomic::{AtomicUsize, Ordering};
+use std::sync::{Arc, Mutex};
+use std::time::Instant;
 
-pub fn inproc(_args: &Args) {
-    eprintln!("not implemented yet");
-    std::process::exit(2);
+pub const TIMEOUT_S: u64 = 120;
+
+#[derive(Clone, Debug, PartialEq, Eq)]
+pub struct Obs {
+    pub code: Option<i32>,
+    pub signal: Option<i32>,
+    pub stdout: Vec<u8>,
+    pub stderr: Vec<u8>,
+    pub files: Vec<(String, Vec<u8>)>,
+    pub timed_out: bool,
+}
+
+fn scrub(bytes: Vec<u8>, out_dir: &Path) -> Vec<u8> {
+    // the only run-specific string that may legitimately appear in messages is the output directory
+    let needle = out_dir.to_string_lossy().into_owned().into_bytes();
+    if needle.is_empty() || bytes.len() < needle.len() {
+        return bytes;
+    }
+    let mut res = Vec::with_capacity(bytes.len());
+    let mut i = 0;
+    while i < bytes.len() {
+        if bytes[i..].starts_with(&needle) {
+            res.extend_from_slice(b"$OUT");
+            i += needle.len();
+        } else {
+            res.push(bytes[i]);
+            i += 1;
+        }
+    }
+    res
+}
+
+pub fn observe(bins: &Binaries, cmd: &Cmd, in_dir: &Path, out_dir: &Path, env: &Env) -> Obs {
+    let mut args = cmd.resolved_args(in_dir, out_dir);
+    let stdin_data = cmd.stdin_file.as_ref().map(|n| cmd.files.iter().find(|(f, _)| f == n).map(|(_, c)| c.clone().into_bytes()).unwrap_or_default());
+    if cmd.stdin_file.is_some() {
+        // the file is not named on the command line
+        args.retain(|a| !a.starts_with(&*in_dir.to_string_lossy()));
+    }
+    let po: ProcOut = match e2::run_anthem(bins, &args, in_dir, stdin_data.as_deref(), env, &[], TIMEOUT_S) {
+        Ok(p) => p,
+        Err(e) => harness_error(&format!("cannot run {}: {e}", bins.anthem.display())),
+    };
+    let files = if cmd.uses_out { crate::exec::read_dir_files(out_dir) } else { vec![] };
+    Obs { code: po.code, signal: po.signal, stdout: scrub(po.stdout, out_dir), stderr: scrub(po.stderr, out_dir), files, timed_out: po.timed_out }
+}
+
+#[derive(Clone, Debug, Serialize, Deserialize)]
+pub struct Diff {
+    pub what: String,
+    pub first_diff: usize,
+    pub excerpt_a: String,
+    pub excerpt_b: String,
+}
+
+pub fn compare(a: &Obs, b: &Obs) -> Option<Diff> {
+    if a.code != b.code || a.signal != b.signal {
+        return Some(Diff { what: "exit status".into(), first_diff: 0, excerpt_a: format!("{:?}/{:?}", a.code, a.signal), excerpt_b: format!("{:?}/{:?}", b.code, b.signal) });
+    }
+    if let Some(at) = e2::first_diff(&a.stdout, &b.stdout) {
+        return Some(Diff { what: "stdout".into(), first_diff: at, excerpt_a: e2::excerpt(&a.stdout, at), excerpt_b: e2::excerpt(&b.stdout, at) });
+    }
+    if let Some(at) = e2::first_diff(&a.stderr, &b.stderr) {
+        return Some(Diff { what: "stderr".into(), first_diff: at, excerpt_a: e2::excerpt(&a.stderr, at), excerpt_b: e2::excerpt(&b.stderr, at) });
+    }
+    let na: Vec<&String> = a.files.iter().map(|f| &f.0).collect();
+    let nb: Vec<&String> = b.files.iter().map(|f| &f.0).collect();
+    if na != nb {
+        return Some(Diff { what: "set of output files".into(), first_diff: 0, excerpt_a: format!("{na:?}"), excerpt_b: format!("{nb:?}") });
+    }
+    for ((n, x), (_, y)) in a.files.iter().zip(b.files.iter()) {
+        if let Some(at) = e2::first_diff(x, y) {
+            return Some(Diff { what: format!("file {n}"), first_diff: at, excerpt_a: e2::excerpt(x, at), excerpt_b: e2::excerpt(y, at) });
+        }
+    }
+    None
+}
+
+#[derive(Clone, Debug, Serialize, Deserialize)]
+pub struct Replay {
+    pub property: String,
+    /// "environment" (two environments disagree), "same-process" (second call in one process differs),
+    /// "fixpoint-idempotence", "hang"
+    pub kind: String,
+    pub seed: u64,
+    pub cmd: Cmd,
+    pub env_a: Env,
+    pub env_b: Env,
+    pub diff: Option<Diff>,
+    pub note: String,
+}
+
+pub fn env_for(seed: u64, cmd_index: usize, r: usize) -> Env {
+    if r == 0 {
+        return Env::plain();
+    }
+    let mut rng = Rng::new(mix3(seed, cmd_index as u64, r as u64));
+    Env::draw(&mut rng)
+}
+
+fn fresh(scratch: &Mutex<Scratch>, prefix: &str) -> PathBuf {
+    scratch.lock().unwrap().fresh_dir(prefix)
+}
+
+/// Does `cmd` give different observations under the two environments? (fresh dirs each time)
+pub fn differs(bins: &Binaries, cmd: &Cmd, a: &Env, b: &Env, scratch: &Mutex<Scratch>) -> Option<Diff> {
+    let in_dir = fresh(scratch, "in");
+    cmd.materialise(&in_dir);
+    let oa = fresh(scratch, "out");
+    let ob = fresh(scratch, "out");
+    let xa = observe(bins, cmd, &in_dir, &oa, a);
+    let xb = observe(bins, cmd, &in_dir, &ob, b);
+    let d = compare(&xa, &xb);
+    for d in [&in_dir, &oa, &ob] {
+        let _ = fs::remove_dir_all(d);
+    }
+    d
+}
+
+/// Same-process repetition through the hooks-on library: two calls of anthem::main() with the same argv.
+pub fn inproc_twice(cmd: &Cmd, scratch: &Mutex<Scratch>) -> Result<Option<Diff>, String> {
+    if cmd.stdin_file.is_some() {
+        return Ok(None);
+    }
+    let in_dir = fresh(scratch, "in");
+    cmd.materialise(&in_dir);
+    let mut obs = vec![];
+    for _ in 0..2 {
+        let out_dir = fresh(scratch, "out");
+        let mut argv = vec!["anthem".to_string()];
+        argv.extend(cmd.resolved_args(&in_dir, &out_dir));
+        let r = run_execution(Scenario { argv, cpus: 4, plan: Plan::quiet() }, SchedSpec::Calm { overrides: vec![] }, 10_000_000, false, || anthem::main().map_err(|e| format!("{e:#}")));
+        let status = match &r.status {
+            ExecStatus::Returned => "ok".to_string(),
+            ExecStatus::MainErr(e) => format!("error: {}", String::from_utf8_lossy(&scrub(e.clone().into_bytes(), &out_dir))),
+            other => format!("{other:?}"),
+        };
+        let files = if cmd.uses_out { crate::exec::read_dir_files(&out_dir) } else { vec![] };
+        let _ = fs::remove_dir_all(&out_dir);
+        obs.push(Obs { code: None, signal: None, stdout: scrub(r.sim.stdout, &out_dir), stderr: status.into_bytes(), files, timed_out: false });
+    }
+    let _ = fs::remove_dir_all(&in_dir);
+    Ok(compare(&obs[0], &obs[1]))
+}
+
+#[derive(Default)]
+struct Tally {
+    runs: u64,
+    cmds: u64,
+    inproc_pairs: u64,
+    idempotence_checked: u64,
+    idempotence_skipped_unparsable: u64,
+    concurrent_pairs: u64,
+    nontrivial: BTreeSet<(usize, String)>,
+    by_kind: BTreeMap<String, u64>,
+    exit_nonzero_cmds: u64,
+    env_dims: BTreeMap<String, u64>,
+    violations: Vec<Replay>,
+    samples: Vec<serde_json::Value>,
+    out_bytes: u64,
+}
+
+fn env_fingerprint(e: &Env) -> String {
+    format!("{:?}", e)
+}
+
+fn count_dims(t: &mut Tally, e: &Env) {
+    let mut b = |k: &str, on: bool| {
+        if on {
+            *t.env_dims.entry(k.to_string()).or_insert(0) += 1;
+        }
+    };
+    b("hash_seed_injected", e.hash_seed.is_some());
+    b(&format!("dir_order_{}", e.dir_mode), e.preload);
+    b("cpu_count_simulated", e.cpus.is_some());
+    b("clock_offset", e.clock_offset_ms.is_some());
+    b("clock_jumps", e.clock_jump_ms.is_some());
+    b("heap_pad", e.heap_pad > 0);
+    b("aslr_off", e.aslr_off);
+    b("aslr_on_uncontrolled", !e.aslr_off);
+    b("stack_pad", e.stack_pad > 0);
+    b("locale_tz_term_vars", e.locale.is_some() || e.tz.is_some() || e.term.is_some() || e.no_color || e.columns.is_some());
+    b("native_no_interposer", !e.preload);
+}
+
+pub fn main(args: &Args) {
+    let t0 = Instant::now();
+    let seed = seed_from(args);
+    let tier = args.get("tier").unwrap_or("quick").to_string();
+    let thorough = tier == "thorough";
+    let envs = args.u64("envs", if thorough { 24 } else { 5 }) as usize;
+    let workers = args.u64("workers", std::thread::available_parallelism().map(|n| n.get() as u64).unwrap_or(8)) as usize;
+    let bins = Arc::new(Binaries::locate());
+    let repo = PathBuf::from(std::env::var("VERIF_REPO").unwrap_or_else(|_| "/repo".into()));
+    let scratch = Arc::new(Mutex::new(Scratch::new("c18")));
+    let root = scratch.lock().unwrap().root.clone();
+    let wl = workload::build(&bins, &repo, &verif_home(), thorough, &root);
+    let only = args.get("only").map(str::to_string);
+    let cmds: Vec<Cmd> = wl.cmds.into_iter().filter(|c| only.as_ref().map(|o| c.id.contains(o.as_str())).unwrap_or(true)).collect();
+    println!("C18 tier={tier} seed={seed} commands={} environments/command={} (+1 native) workers={workers}; theories from tau-star re-accepted: {} rejected: {}", cmds.len(), envs, wl.theories_accepted, wl.theories_rejected);
+    if cmds.is_empty() {
+        harness_error("empty workload");
+    }
+    let cmds = Arc::new(cmds);
+    let next = Arc::new(AtomicUsize::new(0));
+    let tally = Arc::new(Mutex::new(Tally::default()));
+    let do_inproc = args.get("no-inproc").is_none();
+
+    let mut handles = vec![];
+    for _ in 0..workers {
+        let (cmds, next, tally, bins, scratch) = (cmds.clone(), next.clone(), tally.clone(), bins.clone(), scratch.clone());
+        handles.push(std::thread::Builder::new().stack_size(64 << 20).spawn(move || {
+            anthem_simrt::sched::install_quiet_panic_hook();
+            loop {
+                let ci = next.fetch_add(1, Ordering::SeqCst);
+                if ci >= cmds.len() {
+                    break;
+                }
+                let cmd = &cmds[ci];
+                let in_dir = fresh(&scratch, "in");
+                cmd.materialise(&in_dir);
+                let mut local = Tally::default();
+                local.cmds = 1;
+                *local.by_kind.entry(cmd.kind.clone()).or_insert(0) += 1;
+                let out0 = fresh(&scratch, "out");
+                let base = observe(&bins, cmd, &in_dir, &out0, &Env::plain());
+                let _ = fs::remove_dir_all(&out0);
+                local.runs += 1;
+                count_dims(&mut local, &Env::plain());
+                if base.code != Some(0) {
+                    local.exit_nonzero_cmds += 1;
+                }
+                local.out_bytes += base.stdout.len() as u64 + base.files.iter().map(|f| f.1.len() as u64).sum::<u64>();
+                let nontrivial = !base.stdout.is_empty() || !base.files.is_empty();
+                if base.timed_out {
+                    local.violations.push(Replay { property: "C18".into(), kind: "hang".into(), seed, cmd: cmd.clone(), env_a: Env::plain(), env_b: Env::plain(), diff: None, note: format!("no result within {TIMEOUT_S}s") });
+                }
+                for r in 1..=envs {
+                    let env = env_for(seed, ci, r);
+                    count_dims(&mut local, &env);
+                    let copies = if r == envs { 2 } else { 1 };
+                    let mut obs = vec![];
+                    if copies == 2 {
+                        // two copies of the same command at the same time, separate output directories
+                        let outs: Vec<PathBuf> = (0..2).map(|_| fresh(&scratch, "out")).collect();
+                        let hs: Vec<_> = outs
+                            .iter()
+                            .map(|o| {
+                                let (bins, cmd, in_dir, o, env) = (bins.clone(), cmd.clone(), in_dir.clone(), o.clone(), env.clone());
+                                std::thread::spawn(move || observe(&bins, &cmd, &in_dir, &o, &env))
+                            })
+                            .collect();
+                        for h in hs {
+                            obs.push(h.join().unwrap());
+                        }
+                        for o in outs {
+                            let _ = fs::remove_dir_all(o);
+                        }
+                        local.concurrent_pairs += 1;
+                    } else {
+                        let o = fresh(&scratch, "out");
+                        obs.push(observe(&bins, cmd, &in_dir, &o, &env));
+                        let _ = fs::remove_dir_all(o);
+                    }
+                    for x in &obs {
+                        local.runs += 1;
+                        if nontrivial {
+                            local.nontrivial.insert((ci, env_fingerprint(&env)));
+                        }
+                        if x.timed_out && !base.timed_out {
+                            local.violations.push(Replay { property: "C18".into(), kind: "hang".into(), seed, cmd: cmd.clone(), env_a: env.clone(), env_b: env.clone(), diff: None, note: format!("no result within {TIMEOUT_S}s") });
+                        } else if let Some(d) = compare(&base, x) {
+                            if local.violations.len() < 2 {
+                                local.violations.push(Replay { property: "C18".into(), kind: "environment".into(), seed, cmd: cmd.clone(), env_a: Env::plain(), env_b: env.clone(), diff: Some(d), note: format!("environment {r} of command {ci}") });
+                            }
+                        }
+                    }
+                }
+                // side-invariant on the workload: a fixpoint result is a fixpoint
+                if cmd.kind == "simplify" && cmd.id.contains("-fixpoint:") && base.code == Some(0) && !base.timed_out {
+                    let mut again = cmd.clone();
+                    again.files = vec![(again.files[0].0.clone(), String::from_utf8_lossy(&base.stdout).into_owned())];
+                    let d2 = fresh(&scratch, "in");
+                    again.materialise(&d2);
+                    let o2 = fresh(&scratch, "out");
+                    let second = observe(&bins, &again, &d2, &o2, &Env::plain());
+                    local.runs += 1;
+                    if second.code == Some(0) {
+                        local.idempotence_checked += 1;
+                        if second.stdout != base.stdout {
+                            let at = e2::first_diff(&base.stdout, &second.stdout).unwrap_or(0);
+                            local.violations.push(Replay {
+                                property: "C18".into(),
+                                kind: "fixpoint-idempotence".into(),
+                                seed,
+                                cmd: cmd.clone(),
+                                env_a: Env::plain(),
+                                env_b: Env::plain(),
+                                diff: Some(Diff { what: "simplifying the fixpoint result again changed it".into(), first_diff: at, excerpt_a: e2::excerpt(&base.stdout, at), excerpt_b: e2::excerpt(&second.stdout, at) }),
+                                note: String::new(),
+                            });
+                        }
+                    } else {
+                        local.idempotence_skipped_unparsable += 1;
+                    }
+                    let _ = fs::remove_dir_all(d2);
+                    let _ = fs::remove_dir_all(o2);
+                }
+                // same process, twice (hooks-on library)
+                if do_inproc {
+                    match inproc_twice(cmd, &scratch) {
+                        Ok(Some(d)) => local.violations.push(Replay { property: "C18".into(), kind: "same-process".into(), seed, cmd: cmd.clone(), env_a: Env::plain(), env_b: Env::plain(), diff: Some(d), note: "second call of anthem::main() in the same process".into() }),
+                        Ok(None) => {
+                            if cmd.stdin_file.is_none() {
+                                local.inproc_pairs += 1;
+                            }
+                        }
+                        Err(e) => harness_error(&e),
+                    }
+                }
+                if ci % 97 == 3 || (cmd.kind == "verify-dir" && ci % 5 == 0) {
+                    let env = env_for(seed, ci, 1);
+                    local.samples.push(serde_json::json!({
+                        "command": cmd.id, "argv": cmd.args, "inputs": cmd.files.iter().map(|f| format!("{} ({} bytes)", f.0, f.1.len())).collect::<Vec<_>>(),
+                        "environment_1": env, "exit": base.code, "stdout_bytes": base.stdout.len(), "output_files": base.files.iter().map(|f| format!("{} ({} bytes)", f.0, f.1.len())).collect::<Vec<_>>(),
+                        "all_environments_agree": local.violations.is_empty(),
+                    }));
+                }
+                let _ = fs::remove_dir_all(&in_dir);
+                let mut t = tally.lock().unwrap();
+                t.runs += local.runs;
+                t.cmds += local.cmds;
+                t.inproc_pairs += local.inproc_pairs;
+                t.idempotence_checked += local.idempotence_checked;
+                t.idempotence_skipped_unparsable += local.idempotence_skipped_unparsable;
+                t.concurrent_pairs += local.concurrent_pairs;
+                t.exit_nonzero_cmds += local.exit_nonzero_cmds;
+                t.out_bytes += local.out_bytes;
+                t.nontrivial.extend(local.nontrivial);
+                for (k, v) in local.by_kind {
+                    *t.by_kind.entry(k).or_insert(0) += v;
+                }
+                for (k, v) in local.env_dims {
+                    *t.env_dims.entry(k).or_insert(0) += v;
+                }
+                t.violations.extend(local.violations);
+                if t.samples.len() < 6 {
+                    t.samples.extend(local.samples);
+                }
+            }
+        }).unwrap());
+    }
+    for h in handles {
+        if h.join().is_err() {
+            harness_error("a C18 worker thread panicked");
+        }
+    }
+    let tally = Arc::try_unwrap(tally).ok().unwrap().into_inner().unwrap();
+
+    // report violations: minimise, write replay, confirm in a fresh process
+    let replays_dir = verif_home().join("replays");
+    let _ = fs::create_dir_all(&replays_dir);
+    let known = crate::load_known();
+    let mut new_violations = 0u64;
+    let mut reported: BTreeSet<String> = BTreeSet::new();
+    let mut known_lines = BTreeSet::new();
+    let mut vs = tally.violations.clone();
+    vs.sort_by_key(|v| (v.kind.clone(), v.cmd.files.iter().map(|f| f.1.len()).sum::<usize>(), v.cmd.id.clone()));
+    for v in vs {
+        let detail = format!("{} {}", v.cmd.id, v.diff.as_ref().map(|d| d.what.clone()).unwrap_or_default());
+        if let Some(k) = known.iter().find(|k| k.property == "C18" && k.class == v.kind && detail.contains(&k.detail_contains)) {
+            known_lines.insert(format!("KNOWN-FINDING: property=C18 {}", k.what));
+            continue;
+        }
+        new_violations += 1;
+        let family = format!("{}:{}", v.kind, v.cmd.kind);
+        if !reported.insert(family) || reported.len() > 4 {
+            continue;
+        }
+        let min = minimise(&bins, v, &scratch);
+        let path = replays_dir.join(format!("C18-{}-{}-{}.json", seed, min.kind, sanitize(&min.cmd.id)));
+        fs::write(&path, serde_json::to_string_pretty(&min).unwrap()).unwrap();
+        let confirm = std::process::Command::new(std::env::current_exe().unwrap()).args(["c18-replay", path.to_str().unwrap(), "--quiet"]).output().unwrap();
+        println!("violation kind={} command={}", min.kind, min.cmd.id);
+        if let Some(d) = &min.diff {
+            println!("  differs in {} at byte {}:\n    A: {}\n    B: {}", d.what, d.first_diff, d.excerpt_a, d.excerpt_b);
+        }
+        println!("  {}", min.note);
+        if confirm.status.code() == Some(1) {
+            println!("VIOLATION property=C18 replay={}", path.display());
+        } else {
+            harness_error(&format!("violation did not reproduce from {} (exit {:?})", path.display(), confirm.status.code()));
+        }
+    }
+    for l in &known_lines {
+        println!("{l}");
+    }
+
+    let wall = t0.elapsed().as_secs_f64();
+    let evidence_path = args.get("evidence").map(PathBuf::from).unwrap_or_else(|| verif_home().join("evidence/C18.json"));
+    let ev = serde_json::json!({
+        "property_id": "C18", "tier": tier, "seed": seed, "level": "exploration", "wall_s": wall, "violations": new_violations,
+        "coverage": {
+            "evaluations": tally.runs,
+            "distinct_nontrivial": tally.nontrivial.len(),
+            "rule": "one evaluation = one run of the shipped anthem binary (hooks off, rebuilt from /repo) on a fixed command of the workload under one environment drawn from mix(seed, command, r): hash seed, directory order, CPU count, clock offset/jumps, heap/stack offsets, ASLR on/off, locale/TZ/TERM variables, stdin chunking; environment 0 is the native one and every other run of the command must match it byte for byte (exit status, stdout, stderr, every saved file). Distinct non-trivial = distinct (command, non-native environment) pairs whose command produces output.",
+            "samples": tally.samples,
+            "commands": tally.cmds,
+            "commands_by_kind": tally.by_kind,
+            "commands_exiting_nonzero_consistently": tally.exit_nonzero_cmds,
+            "environments_per_command": envs + 1,
+            "environment_dimensions_exercised_runs": tally.env_dims,
+            "concurrent_same_command_pairs": tally.concurrent_pairs,
+            "same_process_repetitions_via_hooks_on_library": tally.inproc_pairs,
+            "fixpoint_side_invariant": {"results_resimplified_unchanged": tally.idempotence_checked, "skipped_result_not_reparsable": tally.idempotence_skipped_unparsable, "wall_budget_s_per_run": TIMEOUT_S, "note": "first sentence of C18 is only asserted on the workload's own formulas; it is not searched"},
+            "output_bytes_compared_per_environment": tally.out_bytes,
+            "runs_per_hour": (tally.runs as f64 / wall.max(0.001) * 3600.0) as u64,
+            "real_vs_stub": {"real": ["the whole anthem binary (release, hooks off)", "std HashMap/RandomState, walkdir, the kernel"], "interposed (seeded)": ["getrandom", "readdir64", "sched_getaffinity/sysconf", "clock_gettime", "personality(ADDR_NO_RANDOMIZE)", "environment variables", "stdin pipe chunking"], "stub": []}
+        },
+        "assumptions": [
+            "Sources of run-to-run variation are the ones the interposer and launcher own (DESIGN.md section 2, N3/N4); with ASLR left on the address layout is uncontrolled and only sampled.",
+            "Sentence 1 of C18 (termination and idempotence for all formulas) is not decided by simulation; it is asserted only on the formulas of the fixed workload."
+        ]
+    });
+    if let Some(p) = evidence_path.parent() {
+        let _ = fs::create_dir_all(p);
+    }
+    fs::write(&evidence_path, serde_json::to_string_pretty(&ev).unwrap()).unwrap();
+    println!("C18: {} commands, {} process runs ({:.0}/s), {} same-process repetitions, {} fixpoint results re-simplified, {} violation(s); evidence {}", tally.cmds, tally.runs, tally.runs as f64 / wall, tally.inproc_pairs, tally.idempotence_checked, new_violations, evidence_path.display());
+    drop(scratch);
+    std::process::exit(if new_violations > 0 { 1 } else { 0 });
+}
+
+fn sanitize(s: &str) -> String {
+    s.chars().map(|c| if c.is_ascii_alphanumeric() || c == '-' { c } else { '_' }).collect::<String>().chars().take(80).collect()
+}
+
+/// Reduce environment B towards A one dimension at a time, then delta-debug the input by lines.
+fn minimise(bins: &Binaries, mut r: Replay, scratch: &Mutex<Scratch>) -> Replay {
+    if r.kind != "environment" {
+        return r;
+    }
+    let mut kept = vec![];
+    for dim in Env::DIMS {
+        let cand = r.env_b.without(dim);
+        if cand == r.env_b {
+            continue;
+        }
+        match differs(bins, &r.cmd, &r.env_a, &cand, scratch) {
+            Some(d) => {
+                r.env_b = cand;
+                r.diff = Some(d);
+            }
+            None => kept.push(*dim),
+        }
+    }
+    // input reduction: drop lines of the largest input while the difference persists
+    let mut tries = 0;
+    if let Some((fi, _)) = r.cmd.files.iter().enumerate().max_by_key(|(_, f)| f.1.len()) {
+        let mut lines: Vec<String> = r.cmd.files[fi].1.lines().map(str::to_string).collect();
+        let mut chunk = (lines.len() / 2).max(1);
+        while chunk >= 1 && tries < 120 && lines.len() > 1 {
+            let mut start = 0;
+            let mut progressed = false;
+            while start < lines.len() && tries < 120 {
+                let mut cand: Vec<String> = lines[..start].to_vec();
+                cand.extend_from_slice(&lines[(start + chunk).min(lines.len())..]);
+                let mut c = r.cmd.clone();
+                c.files[fi].1 = cand.join("\n") + "\n";
+                tries += 1;
+                if let Some(d) = differs(bins, &c, &r.env_a, &r.env_b, scratch) {
+                    lines = cand;
+                    r.cmd = c;
+                    r.diff = Some(d);
+                    progressed = true;
+                } else {
+                    start += chunk;
+                }
+            }
+            if chunk == 1 && !progressed {
+                break;
+            }
+            if chunk > 1 {
+                chunk /= 2;
+            }
+        }
+    }
+    r.note = format!("{}; environment dimensions that must differ: {:?}; input reduced with {} re-runs", r.note, kept, tries);
+    r
+}
+
+pub fn replay(args: &Args) {
+    let path = match args.pos.first() {
+        Some(p) => p.clone(),
+        None => harness_error("usage: vcheck c18-replay FILE"),
+    };
+    let r: Replay = serde_json::from_str(&fs::read_to_string(&path).unwrap_or_else(|e| harness_error(&format!("{path}: {e}")))).unwrap_or_else(|e| harness_error(&format!("{path}: {e}")));
+    let bins = Binaries::locate();
+    let scratch = Mutex::new(Scratch::new("c18r"));
+    let quiet = args.get("quiet").is_some();
+    let found: Option<String> = match r.kind.as_str() {
+        "environment" => differs(&bins, &r.cmd, &r.env_a, &r.env_b, &scratch).map(|d| format!("differs in {} at byte {}: A `{}` B `{}`", d.what, d.first_diff, d.excerpt_a, d.excerpt_b)),
+        "same-process" => inproc_twice(&r.cmd, &scratch).unwrap_or(None).map(|d| format!("second call differs in {}", d.what)),
+        "hang" => {
+            let in_dir = fresh(&scratch, "in");
+            r.cmd.materialise(&in_dir);
+            let o = fresh(&scratch, "out");
+            let x = observe(&bins, &r.cmd, &in_dir, &o, &r.env_a);
+            x.timed_out.then(|| format!("no result within {TIMEOUT_S}s"))
+        }
+        "fixpoint-idempotence" => {
+            let in_dir = fresh(&scratch, "in");
+            r.cmd.materialise(&in_dir);
+            let o = fresh(&scratch, "out");
+            let first = observe(&bins, &r.cmd, &in_dir, &o, &Env::plain());
+            let mut again = r.cmd.clone();
+            again.files = vec![(again.files[0].0.clone(), String::from_utf8_lossy(&first.stdout).into_owned())];
+            let d2 = fresh(&scratch, "in");
+            again.materialise(&d2);
+            let second = observe(&bins, &again, &d2, &o, &Env::plain());
+            (second.code == Some(0) && second.stdout != first.stdout).then(|| "simplifying the fixpoint result again changed it".to_string())
+        }
+        other => harness_error(&format!("unknown replay kind {other}")),
+    };
+    match found {
+        Some(msg) => {
+            if !quiet {
+                println!("replayed {path}: {msg}");
+                println!("VIOLATION property=C18 replay={path}");
+            }
+            std::process::exit(1);
+        }
+        None => {
+            if !quiet {
+                println!("replayed {path}: the recorded {} violation did not occur", r.kind);
+            }
+            std::process::exit(0);
+        }
+    }
 }
